@@ -135,6 +135,20 @@ def _wiring(tree):
     out += _strlist("referentNameBody", _body(find_func(tree, "get_referent_name")), "`get_referent_name` statements")
     out += _strlist("rememberRowBody", _body(find_func(tree, "remember_row", cls="RuntimeContext")), "`RuntimeContext.remember_row` statements")
     out += _strlist("resaveBody", _body(find_func(tree, "resave_objects_from_continuation", cls="Interpreter")), "`resave_objects_from_continuation` statements")
+    # the de-duplication rule of the re-save (fix 5da9efa: by (table, id))
+    rs = find_func(tree, "resave_objects_from_continuation", cls="Interpreter")
+    asg = [n for n in rs.body if isinstance(n, ast.Assign) and ast.unparse(n.targets[0]) == "already_saved"]
+    if len(asg) != 1 or not (isinstance(asg[0].value, ast.Call) and ast.unparse(asg[0].value.func) == "set"
+                             and len(asg[0].value.args) == 1 and isinstance(asg[0].value.args[0], ast.GeneratorExp)):
+        raise PinError("resave: expected `already_saved = set(<generator>)`")
+    gen = asg[0].value.args[0]
+    ext = [n for n in ast.walk(rs) if isinstance(n, ast.Call) and ast.unparse(n.func) == "relevant_objs.extend"]
+    if len(ext) != 1 or not isinstance(ext[0].args[0], ast.GeneratorExp) or len(ext[0].args[0].generators[0].ifs) != 1:
+        raise PinError("resave: expected `relevant_objs.extend(<generator with one if>)`")
+    g2 = ext[0].args[0]
+    out += _strlist("resaveDedup", [ast.unparse(gen.elt), ast.unparse(gen.generators[0].iter),
+                                    ast.unparse(g2.elt), ast.unparse(g2.generators[0].iter), ast.unparse(g2.generators[0].ifs[0])],
+                    "re-save de-duplication: key stored per nicknamed row, its source; by-table element, its source, its test")
     init = find_func(tree, "__init__", cls="Interpreter")
     tail = [ast.unparse(s) for s in init.body if "row_history" in ast.unparse(s) or "tables_to_keep_history_for" in ast.unparse(s)]
     out += _strlist("interpreterInitHistory", tail, "history-related statements of `Interpreter.__init__`, in order")
